@@ -19,7 +19,9 @@ def gen_lines(ctx):
     for n in (range(0, 401) if big else list(range(0, 160)) + list(range(160, 401, 7))):
         out.append(("ascii-len", "x" * n))
     # one multi-octet character at every alignment against the boundary
-    for ch in ("é", "€", "\U0001F600"):
+    # (U+FEFF is the code point codecs treat specially: "utf-8-sig" drops it at the start of a decoded chunk;
+    #  U+2028 / U+0085 are line separators for str.splitlines)
+    for ch in ("é", "€", "\U0001F600", "\ufeff", "\u2028", "\x85"):
         for pre in range(0, 160 if big else 82):
             out.append(("align", "a" * pre + ch + "b" * 5))
             out.append(("align-run", "a" * pre + ch * 40))
@@ -33,7 +35,8 @@ def gen_lines(ctx):
             out.append(("ws-at-fold", "a" * pre + ws + "b" * 80))
             out.append(("ws-at-fold-u", "é" + "a" * (pre - 2) + ws + "b" * 80))
     # random mixes
-    alphabet = ["a", "b", " ", "\t", "\r", ":", ";", "é", "ü", "€", "中", "\U0001F600", "\U00010348", "\x7f", "\x01"]
+    alphabet = ["a", "b", " ", "\t", "\r", ":", ";", "é", "ü", "€", "中", "\U0001F600", "\U00010348", "\x7f", "\x01",
+                "\ufeff", "\u2028", "\x85", "\x0b", "\x0c", "\x1c"]
     for _ in range(20000 if big else 1500 * (1 + 4 * ctx.level)):
         n = rng.choice((0, 1, 10, 70, 74, 75, 76, 100, 149, 150, 151, 300, rng.randrange(0, 500)))
         k = rng.choice((1, 2, 4, len(alphabet)))
@@ -83,7 +86,9 @@ def run(ctx, res):
         res.count(s, nontrivial=len(s.encode("utf-8")) > 74)
         why = oracle(s, folded)
         if why is None:
-            back = Contentline.from_ical(folded)
+            # a byte string that begins with EF BB BF is read as text with a byte-order mark (C09: a leading BOM is
+            # insignificant), so for a line that itself begins with U+FEFF the unfolding clause is checked on str input
+            back = Contentline.from_ical(folded.decode("utf-8") if s.startswith("\ufeff") else folded)
             if str(back) != s:
                 why = "Contentline.from_ical(to_ical(s)) != s"
         if why:
